@@ -51,9 +51,25 @@ let do_str hex =
     done done;
   pr "\n"
 
+(* sub / cat / mem: the allocating helpers (UcMemDefs.v), same answers as harness/probe_uc.c *)
+let hexs l = hex_of_bytes l
+let do_sub hex b e =
+  let s = bytes_of_hex hex in
+  (match uc_sub_t s (z_of_int b) (z_of_int e) with Some r -> pr "%s\n" (hexs r) | None -> pr "x\n")
+let do_cat h1 h2 = pr "%s\n" (hexs (uc_cat (bytes_of_hex h1) (bytes_of_hex h2)))
+let do_mem hex =
+  let s = bytes_of_hex hex in
+  let len = List.length s in
+  pr "dup=%s last=%d trim=%s keep=1 comb=" (hexs (uc_dup s)) (int_of_nat (uc_lastline s)) (hexs (uc_trim s));
+  for i = 0 to len do pr "%d" (if uc_iscomb (skipn i s) then 1 else 0) done;
+  pr "\n"
+
 let () =
   iter_lines (fun l ->
     match words l with
     | ["sweep"; lo; hi] -> do_sweep (int_of_string lo) (int_of_string hi)
     | ["str"; h] -> do_str h
+    | ["sub"; h; b; e] -> do_sub h (int_of_string b) (int_of_string e)
+    | ["cat"; h1; h2] -> do_cat h1 h2
+    | ["mem"; h] -> do_mem h
     | _ -> pr "?\n")
